@@ -51,9 +51,13 @@ pub fn referee(mat: &[Vec<f64>], bias: &[f64], cost: &[f64], answer: &PolytopeSt
             return Err(format!("witness {:?} has wrong length or non-finite entries", w));
         }
         let wq = qv(w);
+        // the solver's error on a vertex lying far out couples all rows: a row with small coefficients on the
+        // large coordinates has a small activity of its own, so the tolerance also carries 1e-9 |a|_inf |w|_inf
+        let wmax = w.iter().fold(0.0f64, |a, v| a.max(v.abs()));
         for (i, (r, b)) in mat.iter().zip(bias.iter()).enumerate() {
             let s = Q::from_f64(*b).sub(&dot(&qv(r), &wq)).to_f64();
-            if s < -1e-6 * scale_of(r, w, *b) {
+            let amax = r.iter().fold(0.0f64, |a, v| a.max(v.abs()));
+            if s < -(1e-6 * scale_of(r, w, *b) + 1e-9 * amax * wmax) {
                 return Err(format!("witness {:?} violates row {} ({:?} <= {}) by {}", w, i, r, b, -s));
             }
         }
